@@ -43,6 +43,7 @@ void harness(void) {
   }
   REACH("explored");
   add_type(&n);
+  REACH("add_type returns");
   OBLIGE(n.ty != 0, "C01.1 the node is typed");
   if (KIND == ND_COMMA) OBLIGE(n.ty == b.ty, "C01.1 comma has the type of its right operand");
   else if (KIND == ND_ASSIGN) {
